@@ -665,6 +665,14 @@ class Pipeline:
             self.grid_def = raw.expand(rd[1], self.ren)
             self.agent_expr = raw.expand(ra, self.ren, stop=[self.grid_name]) \
                 if ra is not None else w.expand(self.ret_agent, self.ren, stop=[self.grid_name])
+            # one-expression methods the pinned tree did not have (`agent.pov_area(area)`,
+            # `agent.pov(area)`) are the expressions they stand for
+            from .inline import inline_methods_by_name
+            from .view import VOCABULARY
+            self.grid_def = inline_methods_by_name(index, self.grid_def, exclude=VOCABULARY,
+                                                   new_only=True)
+            self.agent_expr = inline_methods_by_name(index, self.agent_expr,
+                                                     exclude=VOCABULARY, new_only=True)
         else:
             self.grid_def = w.expand(d[1], self.ren)
             self.agent_expr = w.expand(self.ret_agent, self.ren, stop=[self.grid_name])
